@@ -1057,3 +1057,73 @@ func VerifC10Classes(fixed, sym, mode, rot int) {
 	}
 	g.runCalls(scope, t, clean, dirty, nopri)
 }
+
+// VerifC10Fastpath: histories over the restricted alphabet {define/redefine the primary on all-t,
+// define the primary on the all-fixnum key, define :before on all-t, remove-method of each present
+// one, call with fixnum(s), call with symbol(s)} starting from the method-less generic (arity 1 or
+// 2, two classes {fixnum, t} per argument). The first operation is a define (op0 picks which, so a
+// bound is split into three cases; a call or remove on the empty generic changes nothing), the last
+// one a call; op1 >= 0 fixes the second operation. Every call is compared with the reference over
+// the table at that moment (a call without applicable primary is made, not compared: known
+// finding), and after every step the invariant is checked on the real Aux: methods = definitions,
+// cache empty after a change and coherent otherwise, defaultCaller set only when the table is
+// exactly one primary on all-t and equal to that method's function. Everything of lengths 1..steps
+// is covered because the checks run after every step.
+func VerifC10Fastpath(arity, steps, op0, op1 int) {
+	zzC10St = &zzC10State{}
+	scope := slip.NewScope()
+	g := &zzC10Gen{name: zzC10G1, aux: zzC10Aux1, arity: arity, sel: zzC10Select(2), mode: 1}
+	if arity == 2 {
+		g.name, g.aux = zzC10G2, zzC10Aux2
+	}
+	t := zzC10NewTable(g.nkeys())
+	tk := g.nkeys() - 1
+	slots := []int{tk*4 + zzC10Primary, 0*4 + zzC10Primary, tk*4 + zzC10Before}
+	calls := [][]int{{0}, {3}}
+	if arity == 2 {
+		calls = [][]int{{0, 0}, {3, 3}}
+	}
+	nslots := g.nkeys() * 4
+	var called [][]int
+	g.checkInv(t, nil, true)
+	for st := 0; st < steps; st++ {
+		var present []int
+		for _, s := range slots {
+			if t.has[s] {
+				present = append(present, s)
+			}
+		}
+		sn := strconv.Itoa(st)
+		nops := len(slots) + len(present) + len(calls)
+		var k int
+		switch {
+		case st == 0:
+			k = op0
+		case st == 1 && 0 <= op1:
+			if nops <= op1 {
+				return
+			}
+			k = op1
+		case st == steps-1:
+			k = len(slots) + len(present) + vrt.Choice("op"+sn, len(calls))
+		default:
+			k = vrt.Choice("op"+sn, nops)
+		}
+		switch {
+		case k < len(slots):
+			g.mutate(scope, t, 0, slots[k], slots[k]+nslots*(st+1), "")
+			called = nil
+			g.checkInv(t, nil, true)
+		case k < len(slots)+len(present):
+			g.mutate(scope, t, 1, present[k-len(slots)], 0, "")
+			called = nil
+			g.checkInv(t, nil, true)
+		default:
+			ac := calls[k-len(slots)-len(present)]
+			g.checkCall(scope, t, ac, "", 2)
+			called = append(called, ac)
+			g.checkInv(t, called, false)
+		}
+	}
+	vrt.Reach("fastpath-history")
+}
